@@ -428,13 +428,31 @@ class InstrMixin:
             et = ins['type']
             if ins.get('commaok'):
                 un, t = self.ty.under(et)
-                v = self.ty.symbolic(t['elems'][0], 'recv')
-                self.assume_facts(v, t['elems'][0])
-                self.setreg(ctx, ins, TupleV([v, T.fresh('recvok', T.BOOL)]))
+                vt = t['elems'][0]
+                v = self.ty.symbolic(vt, 'recv')
+                self.assume_facts(v, vt)
+                okv = T.fresh('recvok', T.BOOL)
+                self.setreg(ctx, ins, TupleV([v, okv]))
             else:
+                vt = et
                 v = self.ty.symbolic(et, 'recv')
                 self.assume_facts(v, et)
+                okv = T.TRUE
                 self.setreg(ctx, ins, v)
+            rs = self.recvspecs.get(x) if is_term(x) else None
+            if rs is not None:
+                # assumed facts about what the channel carries (the senders' contracts)
+                argn = (rs.args or ['m'])[0]
+                names = dict(self.base_names)
+                names[argn] = (v, vt)
+                from .exec_expr import Env
+                env = Env(names, st, self.entry_state, self.cellnames_for(ctx, ctx.get('block')), self.pkg)
+                for c in rs.ensures:
+                    try:
+                        self.add_hyp(T.implies(T.and_(st.pc, okv), self.eval_bool(c.parse(), env)))
+                    except Unsupported as e:
+                        self.elab_fail('recv clause %r: %s' % (c.text, e))
+                self.assumed_used.add('channel contents %s in %s (the senders\' send contracts)' % (rs.name, self.oname))
             self.sync_point(st)
             return
         raise Unsupported('unop %s' % tok)
@@ -604,6 +622,10 @@ class InstrMixin:
         r = T.fresh('iface')
         self.add_hyp(T.lt(T.ZERO, r))
         self.add_hyp(T.eq(self.uf_dyn(r), T.I(self.ty.type_id(xt))))
+        if isinstance(x, PtrV) and x.kind == 'field':
+            xr = self.as_ref(x)
+            self.add_hyp(T.eq(self.uf_pay(r), xr))
+            self.iface_static[r] = (xt, xr)
         if is_term(x) and T.sort_of(x) == T.INT:
             self.add_hyp(T.eq(self.uf_pay(r), x))
             self.iface_static[r] = (xt, x)
